@@ -317,6 +317,22 @@ def run(prog, tier):
                          + "; one Conditional object is re-used for every variable, so a coordinate left displaced by one "
                            "scan moves the point through which the next conditional is taken", REL,
                          hits[0][2] if hits else cc.node.lineno))
+    # ... nor replaced from outside: in the module, no statement stores to `.theta` of an object other than inside Conditional.__init__
+    outside = []
+    for fname_, f_ in mi.functions.items():
+        for st_ in ast.walk(f_):
+            tg_ = st_.targets if isinstance(st_, ast.Assign) else [st_.target] if isinstance(st_, ast.AugAssign) else []
+            for t_ in tg_:
+                for el_ in (t_.elts if isinstance(t_, ast.Tuple) else [t_]):
+                    b_ = el_
+                    while isinstance(b_, ast.Subscript):
+                        b_ = b_.value
+                    if isinstance(b_, ast.Attribute) and b_.attr == "theta":
+                        outside.append(f"{fname_} line {st_.lineno}: `{U(st_)[:80]}`")
+    obs.append(struct_ob("conditioning-point", f"{mi.name}[theta-not-replaced]", not outside,
+                         "the conditioning point of a Conditional is fixed when it is built: " + "; ".join(outside[:2])
+                         + " moves it between variables, so later conditionals are taken through another point", REL,
+                         cc.node.lineno, tier="F"))
     cfn = cc.methods.get("__call__")
     body = [U(s_) for s_ in cfn.body]
     xarg = cfn.args.args[1].arg
